@@ -35,6 +35,27 @@ CHECKS = {
         technique="property-based testing with recomputation oracles (Hypothesis)",
         ref="DESIGN.md section 4 C13",
     ),
+    "C10": dict(
+        level="exploration",
+        text="Hypothesis rule-based state machine over the captured objective (evaluate new / earlier / raising points, fresh optimizer, change numba thread count) with a history invariant (value at x is a function of x only) and deep snapshots of the caller's parameters, model and data after every step; optimize() twice per method; a fresh-process matrix over NUMBA_NUM_THREADS. Thread schedules are only sampled - the harness cannot own numba's scheduler (stated limit).",
+        note="Trusted: snapshot covers parameter dicts, model dict, data/weight/coordinate bytes. Bit-equality is counted; violation threshold 1e-12 relative.",
+        technique="stateful property-based testing (Hypothesis RuleBasedStateMachine) + differential runs across processes/thread counts",
+        ref="DESIGN.md section 4 C10",
+    ),
+    "C14": dict(
+        level="exploration",
+        text="Generated built-in kinetic models (decay variants, IRF variants, oscillation, artifact, baseline, full-model spectra, 1-3 datasets with scales): simulate -> objective at the generating parameters is zero to rounding, clps equal generating clps / scale, the optimiser stays at the truth, recovers from <= 20 % perturbation when identifiable (gated by cond(J)), and seeded noise is reproducible.",
+        note="Conditioning / identifiability gates discard (and count) cases; tolerances scale with the measured conditioning.",
+        technique="property-based round-trip (simulate -> fit) testing (Hypothesis)",
+        ref="DESIGN.md section 4 C14",
+    ),
+    "C15": dict(
+        level="fault_enumeration",
+        text="For each small scheme/method the fault-free run fixes the number N of model evaluations; a fault (exception object, NaN matrix, Inf matrix) is then injected at every k = 1..N, plus persistent region faults, for every method and verbose/raise_exception combination; oracle from the statement (exception identity, InitialParameterError iff nothing evaluated, Result from a parameter vector the harness megacomplex logged as evaluated without error, stdout identity, scheme snapshot); every kind of invalid scheme is rejected before any evaluation.",
+        note="Fault position is enumerated exhaustively per scheme; the schemes themselves are a small fixed family (4 variants x seeds). Known finding D15 (create_result unprotected) is listed in known_findings.json.",
+        technique="exhaustive fault-position enumeration with a logging harness megacomplex",
+        ref="DESIGN.md section 4 C15",
+    ),
 }
 
 PENDING_REASON = "check not built yet in this session (planned, see DESIGN.md section 4); nothing is claimed for it"
